@@ -120,7 +120,8 @@ class Fixture:
         return {
             "live": True,
             "sample": [stok.get(str(x), 99) for x in s.sample_names],
-            "treat": [[[ttok.get(str(s.treatment_names[i, a]), 99), dtok(float(s.treatment_doses[i, a]))] for a in range(self.arity)] for i in range(n)],
+            # (as many treatment slots as the object actually has: a derived object with another arity is a difference, not a crash of the harness)
+            "treat": [[[ttok.get(str(s.treatment_names[i, a]), 99), dtok(float(s.treatment_doses[i, a]))] for a in range(int(np.shape(s.treatment_names)[1]))] for i in range(n)],
             "plate": [ptok.get(str(x), 99) for x in s.plate_names],
             "val": [vtok(float(x), i + 1) for i, x in enumerate(s.observations)],
             "mask": [bool(x) for x in s.observation_mask],
